@@ -248,7 +248,8 @@ Inductive op :=
 | Clear (keepstats : bool)
 | Archived (flag : option bool)
 | SetArchive (a : archive)          (* f.archive(obj) *)
-| ArchSet (k : key) (v : val).      (* another user of the attached archive stores k -> v *)
+| ArchSet (k : key) (v : val)       (* another user of the attached archive stores k -> v *)
+| MemClear.                         (* f.__cache__().clear(): the memory emptied BEHIND the wrapper - queue, counters, statistics stay *)
 
 Definition do_clear (c : cfg) (s : state) (keep : bool) : state :=
   let s1 := match c_alg c with NO => s | _ => clear_book c (w_mem s []) end in
@@ -281,6 +282,7 @@ Definition step (c : cfg) (s : state) (o : op) : state * out :=
   | ArchSet k v =>
       if c_direct c then (s, OUnit)
       else (w_cs s (c_with_arch (cs s) (a_update (arch (cs s)) [(k, v)])), OUnit)
+  | MemClear => (w_mem s [], OUnit)
   end.
 
 Definition run (c : cfg) (s : state) (ops : list op) : state :=
